@@ -735,7 +735,7 @@ fn parse_expr(
                     Rule::number => {
                         let raw_string = primary.as_str();
                         let child = primary.children().single().unwrap();
-                        let number = map_err(number::number_from_string(raw_string, child.as_rule()), primary_span, &user_data.get_file_name(), "MScript does not recognize this number".to_owned()).to_err_vec()?;
+                        let number = map_err(number::number_from_string(raw_string, child.as_rule()), primary_span, &user_data.get_source_file_name(), "MScript does not recognize this number".to_owned()).to_err_vec()?;
 
                         Expr::Value(Value::Number(number))
                     }
